@@ -1,11 +1,11 @@
 SPECIFICATION Spec
 CONSTANTS
-  Users = {"u1", "u2"}
+  Users = {"u1"}
   Tokens = {"btc"}
   Std = "stake"
   RecordHist = FALSE
-  InitStd = 14
-  InitTok = 10
+  InitStd = 24
+  InitTok = 18
   CFee = 3
   FeeNum = 3
   FeeDen = 10
@@ -13,14 +13,14 @@ CONSTANTS
   UniDen = 10
   TaxNum = 2
   TaxDen = 5
-  Amts = {1, 2, 3, 5}
-  Mins = {0, 1, 3}
-  Liqs = {1, 2, 4}
+  Amts = {1, 2, 3, 5, 7}
+  Mins = {0, 2}
+  Liqs = {1, 3, 4}
   Donations = {1, 2}
   DlOffs = {0, 1}
   MaxNow = 2
   Senders = {"u1"}
-  Recipients = {"u1", "u2", "feepool"}
+  Recipients = {"u1", "feepool"}
   MaxSteps = 100
   WithUni = TRUE
 VIEW View
